@@ -109,10 +109,14 @@ bool UndoHistoryImpl::mergeEvent(time_t now, const char *msg, char *buf, size_t 
     if(history_pos == 0)
         return false;
     for(int i=history_pos-1; i>=0; --i) {
+        //Only the most recent event of this address can be extended; events of
+        //other addresses in between do not matter (their time stamps are not
+        //ordered once an older event has been extended)
+        if(strcmp(getUndoAddress(msg),
+                    getUndoAddress(history[i].second)))
+            continue;
         if(difftime(now, history[i].first) > 2)
             break;
-        if(!strcmp(getUndoAddress(msg),
-                    getUndoAddress(history[i].second)))
         {
             //We can splice events together, merging them into one event
             rtosc_arg_t args[3];
